@@ -88,8 +88,34 @@ func SyntheticElems() []Elem {
 	for i, t := range TypeNames {
 		out = append(out, Elem{SyntheticPEN, uint16(i + 1), "verif" + strings.Title(t), t})
 		out = append(out, Elem{SyntheticPEN + 1, uint16(i + 101), "verifB" + strings.Title(t), t})
+		// IANA-space (enterprise number 0) elements that only an installed file defines: ids far above the registry
+		out = append(out, Elem{0, uint16(30001 + i), "verifIana" + strings.Title(t), t})
 	}
 	return out
+}
+
+// ElementsFileExtending renders a file = the shipped one (a single "0:" section) extended by elems: those with
+// enterprise number 0 continue the shipped section, the others follow as sections of their own.
+func ElementsFileExtending(shipped []byte, elems []Elem) []byte {
+	var sb strings.Builder
+	sb.Write(shipped)
+	if len(shipped) > 0 && shipped[len(shipped)-1] != '\n' {
+		sb.WriteByte('\n')
+	}
+	var rest []Elem
+	for _, e := range elems {
+		if e.PEN != 0 {
+			rest = append(rest, e)
+			continue
+		}
+		t := e.Type
+		if t == "-" {
+			t = "basicList"
+		}
+		fmt.Fprintf(&sb, "  %d:\n  - %s\n  - %s\n", e.ID, e.Name, t)
+	}
+	sb.Write(ElementsFile(rest))
+	return []byte(sb.String())
 }
 
 // ElementsFile renders elements in the format of scripts/ipfix.elements.
